@@ -4,7 +4,7 @@ from vlib.genidx import genidx_step   # tie A: the index / hyperslab / util-fn f
 
 CHECK = Check(
     "C08",
-    props_modules=["OW.Props.C08", "OW.Props.C08Seq", "OW.Props.C08Slice"],
+    props_modules=["OW.Props.C08", "OW.Props.C08Seq", "OW.Props.C08Slice", "OW.Props.C08Persist"],
     pre_steps=[lockgraph_step, genidx_step],
     families=[
         Family("H5U"),   # sliceSize / makeHyperslab through io/verif_export.go, exact integer comparison
@@ -77,10 +77,13 @@ CHECK = Check(
         "above 2^40 bytes are outside the model",
     ],
     partial=[
-        "ops_trace: per-position statements only — WF after every prefix and OpSpec (T2-T5') for the call at every "
-        "position on the file the earlier calls left; the composition 'what an earlier Write/WriteSlice stored is what a "
-        "later Load returns across intervening calls on other paths' is not stated (it follows one call at a time from the "
-        "frame clauses of writeSlice_footprint / create_new)",
+        "ops_trace gives per-position statements (WF after every prefix, OpSpec T2-T5' for the call at every position). The "
+        "composition across a history is NOW PROVED (OW/Props/C08Persist.lean, frame lemmas for EVERY outcome of every call in "
+        "OW/Proofs/C08Frame.lean): stored_object_persists (an object at path r is unchanged by any sequence of Write / "
+        "WriteSlice / Create / Load calls, arbitrary arguments and outcomes, none of which names r), load_across, "
+        "write_then_load_across (T3 across intervening calls on other paths), writeSlice_then_load_across (T4 likewise). "
+        "Still not stated as one theorem: histories with SEVERAL writers to the same path (apply T9b/T9c at the last of "
+        "them; the per-position OpSpec gives each one's effect on what the previous left)",
         "load_selection_eq_nd_slice (Load with a selection = OW/Nd Slice(starts, counts, steps) of the loaded full array, "
         "read in row-major order) needs every extent of the dataset >= 1 and a selection that picks AT LEAST ONE index in "
         "every dimension; a selection that is empty in some dimension (stop <= start, start beyond the extent) returns an "
